@@ -79,3 +79,128 @@ pub fn drops_members(mut v: Vec<String>) -> Vec<String> {
     v.dedup();
     v
 }
+
+// ---- every spelling of "this can panic" must be enumerated by the MIR site inventory (rules/poscontrol.py: PANIC-FORMS)
+pub fn pf_panic_plain(x: u32) -> u32 {
+    if x == 7 {
+        panic!()
+    }
+    x
+}
+pub fn pf_panic_msg(x: u32) -> u32 {
+    if x == 7 {
+        panic!("seven is not allowed")
+    }
+    x
+}
+pub fn pf_panic_fmt(x: u32) -> u32 {
+    if x == 7 {
+        panic!("{} is not allowed", x)
+    }
+    x
+}
+pub fn pf_unreachable_msg(x: u32) -> u32 {
+    match x {
+        0 => 1,
+        _ => unreachable!("only zero"),
+    }
+}
+pub fn pf_unimplemented(x: u32) -> u32 {
+    if x == 7 {
+        unimplemented!()
+    }
+    x
+}
+pub fn pf_todo(x: u32) -> u32 {
+    if x == 7 {
+        todo!()
+    }
+    x
+}
+pub fn pf_assert(x: u32) -> u32 {
+    assert!(x != 7);
+    x
+}
+pub fn pf_assert_eq(x: u32) -> u32 {
+    assert_eq!(x, 7, "must be seven");
+    x
+}
+pub fn pf_div(a: u32, b: u32) -> u32 {
+    a / b
+}
+pub fn pf_rem(a: u32, b: u32) -> u32 {
+    a % b
+}
+pub fn pf_add(a: u8, b: u8) -> u8 {
+    a + b
+}
+pub fn pf_str_slice(s: &str, a: usize, b: usize) -> &str {
+    &s[a..b]
+}
+pub fn pf_slice_index(v: &[u8], i: usize) -> u8 {
+    v[i]
+}
+pub fn pf_vec_index(v: &Vec<u8>, i: usize) -> u8 {
+    v[i]
+}
+pub fn pf_map_index(m: &HashMap<String, u32>, k: &str) -> u32 {
+    m[k]
+}
+pub fn pf_unwrap_or_else(x: Option<u32>) -> u32 {
+    x.unwrap_or_else(|| panic!("none"))
+}
+pub fn pf_expect_err(x: Result<u32, String>) -> String {
+    x.expect_err("must fail")
+}
+pub fn pf_vec_remove(v: &mut Vec<u8>) -> u8 {
+    v.remove(0)
+}
+pub fn pf_split_at(s: &str) -> (&str, &str) {
+    s.split_at(3)
+}
+pub fn pf_refcell(c: &RefCell<u8>) -> u8 {
+    *c.borrow_mut()
+}
+pub fn pf_from_digit() -> char {
+    char::from_digit(40, 10).unwrap()
+}
+pub fn pf_neg(a: i32) -> i32 {
+    -a
+}
+pub fn pf_shl(a: u32, b: u32) -> u32 {
+    a << b
+}
+pub fn pf_explicit_exit(x: u32) -> u32 {
+    if x == 7 {
+        std::process::exit(3)
+    }
+    x
+}
+pub fn pf_abort(x: u32) -> u32 {
+    if x == 7 {
+        std::process::abort()
+    }
+    x
+}
+pub fn pf_copy_from_slice(a: &mut [u8], b: &[u8]) {
+    a.copy_from_slice(b)
+}
+pub fn pf_iter_step_by(v: &[u8], n: usize) -> usize {
+    v.iter().step_by(n).count()
+}
+pub fn pf_chunks(v: &[u8], n: usize) -> usize {
+    v.chunks(n).count()
+}
+pub fn pf_string_drain(s: &mut String) -> String {
+    s.drain(..2).collect()
+}
+pub fn pf_duration_sub(a: std::time::Duration, b: std::time::Duration) -> std::time::Duration {
+    a - b
+}
+pub fn pf_array_index(i: usize) -> u8 {
+    let a = [1u8, 2, 3];
+    a[i]
+}
+pub fn pf_range_slice(v: &[u8], a: usize) -> &[u8] {
+    &v[a..]
+}
